@@ -19,7 +19,7 @@ from ..common import Result
 ID = "C13"
 LEVEL = "fault_enumeration"
 NEEDS_PTY = True
-N_ROUNDS = {"quick": 5, "thorough": 300}
+N_ROUNDS = {"quick": 5, "thorough": 120}
 RULE = (
     "operations {query_terminal, read_tty (timeout None / >= 0 / < 0, min, echo), read_tty_all, get_fg_bg_colors, "
     "get_terminal_name_version, get_cell_size via query, Renderable.draw(echo_input=False) still and animated} "
